@@ -1,7 +1,6 @@
 package main
 
 import (
-	"bytes"
 	"fmt"
 	"image"
 	"math/rand"
@@ -16,6 +15,7 @@ func init() { register("C02", checkC02) }
 
 func checkC02(args []string) {
 	run := vx.NewRun("C02", "translation_validation", args)
+	activeRun = run
 	run.Rule = "the lossy option product of C06 and the lossless product of C01, crossed with alpha classes, picture placements (origin, sub-image with non-zero origin), source types and every subset of ICC/EXIF/XMP with odd/even/chunk-like blobs; for every Encode that returns nil the written bytes are the trace: (a) the strict TLA+ container reader (spec/Riff.tla via TVFiles) must accept them as exactly one RIFF/WebP file whose sizes, padding, chunk order, VP8X flags, canvas and bitstream-header dimensions match the source picture, with alpha announced when the source has a non-opaque pixel and no ALPH for an opaque lossy source; (b) webp.Decode must accept them; (c) for small pictures the image chunk is decoded by the independent TLA+ readers (Vp8.tla planes = decoder planes, partitions not over-read; Vp8l.tla pixels = source pixels; Alph.tla plane = decoder alpha). distinct = distinct (codec, option class, alpha class, placement, metadata subset) cases"
 	run.Assumptions = []string{"independent decoding is limited to small pictures; larger ones are validated at container level and by the real decoder", "the partition-0 overflow case (>= 75 megapixels of noise) runs in the thorough tier only"}
 	rng := rand.New(rand.NewSource(run.Seed))
@@ -127,7 +127,7 @@ func checkC02(args []string) {
 		fe.W, fe.H = w, h
 		e.Frames = []vx.FrameExp{fe}
 		files = append(files, vx.FileCase{ID: id, Must: "accept", Bytes: vx.Ints(out), X: []vx.Expect{e}})
-		dec, derr := webp.Decode(bytes.NewReader(out))
+		dec, derr := guardedDecode(out)
 		if derr != nil {
 			run.Violate("undecodable|"+sig, name+": Encode returned nil but Decode fails: "+derr.Error(), name)
 			continue
@@ -205,7 +205,7 @@ func checkC02(args []string) {
 		if pan != nil {
 			run.Violate("panic|partition0-overflow", fmt.Sprint(pan), "16000x5200 noise q100 m3 segments1")
 		} else if err == nil {
-			if _, derr := webp.Decode(bytes.NewReader(out)); derr != nil {
+			if _, derr := guardedDecode(out); derr != nil {
 				run.Violate("undecodable|partition0-overflow", "16000x5200 noise, Quality 100, Method 3, Segments 1: Encode returned nil but Decode fails: "+derr.Error(), "16000x5200 noise q100 m3 segments1")
 			}
 		}
